@@ -20,6 +20,8 @@ Frac(n, d) == LET g == GGcd(GAbs(n), GAbs(d))
 FrLt(p, q) == p[1] * q[2] < q[1] * p[2]
 FrLe(p, q) == p[1] * q[2] <= q[1] * p[2]
 FrEq(p, q) == Frac(p[1], p[2]) = Frac(q[1], q[2])
+FrAdd(p, q) == Frac(p[1] * q[2] + q[1] * p[2], p[2] * q[2])
+FrSub(p, q) == Frac(p[1] * q[2] - q[1] * p[2], p[2] * q[2])
 
 VSub(u, v) == <<u[1] - v[1], u[2] - v[2]>>
 VDot(u, v) == u[1] * v[1] + u[2] * v[2]
@@ -65,5 +67,22 @@ RECURSIVE MinFrac(_)
 MinFrac(S) == LET x == CHOOSE x \in S : TRUE IN
               IF S = {x} THEN x ELSE LET m == MinFrac(S \ {x}) IN IF FrLe(x, m) THEN x ELSE m
 D2PointPoly(P, poly) == MinFrac({D2PointSeg(P, poly[k], poly[k + 1]) : k \in 1..(Len(poly) - 1)})
-PolyLen2Zero(poly, k) == poly[k] = poly[k + 1]
+
+\* polylines whose legs have integer length (axis-aligned, 3-4-5 ...): curvilinear abscissa is rational
+IsSquare(n) == \E k \in 0..n : k * k = n
+ISqrt(n) == CHOOSE k \in 0..n : k * k = n
+LegLen(poly, i) == ISqrt(Dist2(poly[i], poly[i + 1]))
+IntLegs(poly) == \A i \in 1..(Len(poly) - 1) : IsSquare(Dist2(poly[i], poly[i + 1]))
+RECURSIVE CumLen(_, _)
+CumLen(poly, i) == IF i = 1 THEN 0 ELSE CumLen(poly, i - 1) + LegLen(poly, i - 1)      \* abscissa of vertex i
+PolyLength(poly) == CumLen(poly, Len(poly))
+\* distance (fraction) from vertex i to the rational point R lying on segment i (1-based)
+AlongSeg(poly, i, R) ==
+   LET A == poly[i]
+       ab == VSub(poly[i + 1], A)
+       L == LegLen(poly, i)
+       dot == (R[1] - A[1] * R[3]) * ab[1] + (R[2] - A[2] * R[3]) * ab[2]
+   IN IF L = 0 THEN <<0, 1>> ELSE Frac(dot, R[3] * L)
+\* curvilinear abscissa of R on segment i
+AbscOn(poly, i, R) == FrAdd(<<CumLen(poly, i), 1>>, AlongSeg(poly, i, R))
 =============================================================================
